@@ -64,11 +64,11 @@ class C11(flow.Spec):
                'Name(<single NameSeg>, <integer constant>) declarations) F1/F2 (those, Device blocks and Methods with declaration-only bodies, nested to any depth) and F3 (in addition top-level Scope directives over the predefined scopes), F4..F8 / T2 / TN / TN8 as described in Props/C11_frag.v. '
                'C11_parse_encode_partial_F9 (Props/C11_frag.v) PROVES the statement for fragment F9: ONE table WITHOUT Scope directives whose items are those of F8 '
                '(Name with integer / string / nested-package value, Device / ThermalZone / Processor / PowerResource / Method blocks, Mutex, Event, OperationRegion with constant '
-               'offset and length, single-NameSeg names, any depth, any admissible PkgLength width) and, directly in Method bodies, statements op(c1..cn) with op in '
+               'offset and length, single-NameSeg names, any depth, any admissible PkgLength width) and, anywhere an item may stand (Method / Device-like bodies, top level), statements op(c1..cn) with op in '
                '{Return, Sleep, Stall, LNot, LAnd, LOr, LEqual, LGreater, LLess, Break, Continue, BreakPoint} and every operand an integer constant or a string '
                '(e.g. Method(_STA){Return(0x0F)}); here resolveMethodCalls / connectNonNamedObjArg / attachSiblingsAsArgs do real work (exact pass-5 layer Aml/ParserFragF9Calls.v). '
                'F9 does NOT subsume F3..F8/TN8 (no Scope directives, one table); NOT proved for statements: operands that are expressions, names, Local/Arg objects, operators with a Target (Store, Add, ...), '
-               'If/Else/While, statements outside Method bodies, statements together with Scope directives or several tables. Outside the proved fragments and the lexical level the statement '
+               'If/Else/While, statements together with Scope directives or several tables. wf_program rejects the constant Zero in a Target / SuperName / SimpleName position (the byte 00 there is the NullName, spelled ANull; C11_null_target_one_spelling). Outside the proved fragments and the lexical level the statement '
                'is TESTED, not proved - by the correspondence (Python encoder = Coq encode, Python ns = Coq ns, wf_program accepts every generated '
                'program, model parser = real parser incl. the Coq namespace view = the harness view) and by the monitor on the real parser',
                'productions inside the tested fragment: DefScope (incl. Scope(\\)), Device, Processor, PowerRes, ThermalZone, Method (0-7 args, nested names), Name, '
